@@ -25,6 +25,8 @@
                                                                                           batch is ever allowed again
   8.  glue: every batch id >= 0 (0 included) reaches the policy, never offered again ..... C16_batch_ids_reach_policy, C16_selectNext_histories
   Regression (not a clause): S7-C16 placeholder filter `> 0` ............................ C16_S7_gt_filter_counterexample (vs C16_glue_witness_ok)
+  9.  the plate that is returned is one the policy allowed, for every score table (ties incl.)  C16_selected_plate_is_allowed
+  Regression (not a clause): S8-C16 value lookup over the whole table after a masked min ..... C16_S8_value_lookup_counterexample (+ C16_tie_witness_allowed)
   harness-only: numpy views behind Plate.sample_ids / n_unique_samples / is_observed (container fidelity), argmin of the scores (C06).
 -/
 import Batchie.Lemmas.Policy
@@ -220,6 +222,80 @@ theorem C16_S7_gt_filter_counterexample :
   rw [hgt, C16_glue_witness_ok]
   intro h
   cases h
+
+/-! ### which allowed plate comes back (seeded change S8-C16) -/
+
+/-- **The selected plate is a member of the policy's answer, for EVERY score table** -- all scores equal, exact ties between allowed
+    and non-allowed plates (`-0.0` / `0.0` are equal numbers), non-allowed plates stored first or last (S8-C16, positive half).
+    `selectPlate` = `select_next_plate` with the choice: the table is masked to the allowed ids before the argmin is taken.  If it
+    answers plate id `i`, the policy's answer `el` contains a plate with id `i` (so that plate is unobserved, outside the batch and
+    in none of the listed ids); it answers `none` exactly when the policy allows nothing; and when some allowed plate has a score it
+    does answer a plate. -/
+theorem C16_selected_plate_is_allowed (k : Nat) (screen : List Plate) (ids : List Int) (table : List (Nat × Int)) :
+    (∀ i, selectPlate k screen ids table = .ok (some i) →
+      ∃ el, selectNext k screen ids = .ok el ∧ ∃ p ∈ el, p.id = i ∧ p ∈ screen ∧ p.observed = false ∧ (p.id : Int) ∉ ids) ∧
+    (∀ el, selectNext k screen ids = .ok el → el = [] → selectPlate k screen ids table = .ok none) ∧
+    (∀ el, selectNext k screen ids = .ok el → (∃ p ∈ el, ∃ sc, (p.id, sc) ∈ table) →
+      ∃ i, selectPlate k screen ids table = .ok (some i)) := by
+  refine ⟨?_, ?_, ?_⟩
+  · intro i h
+    unfold selectPlate at h
+    cases hs : selectNext k screen ids with
+    | error e => rw [hs] at h; cases h
+    | ok el =>
+      rw [hs] at h
+      simp only at h
+      split at h
+      · cases h
+      · have h' : argminAllowed table (el.map (fun p => p.id)) = some i := by
+          have := Except.ok.inj h
+          exact this
+        obtain ⟨hmem, _⟩ := Batchie.Lemmas.PolicyGlue.argminAllowed_mem h'
+        obtain ⟨p, hp, hpi⟩ := List.mem_map.1 hmem
+        obtain ⟨h1, h2, h3⟩ := (C16_batch_ids_reach_policy k screen ids).2.2.2 el hs p hp
+        exact ⟨el, rfl, p, hp, hpi, h1, h2, h3⟩
+  · intro el hs hnil
+    unfold selectPlate
+    rw [hs, hnil]
+    rfl
+  · intro el hs ⟨p, hp, sc, hsc⟩
+    unfold selectPlate
+    rw [hs]
+    have hne : el.isEmpty = false := by
+      cases el with
+      | nil => cases hp
+      | cons _ _ => rfl
+    simp only [hne]
+    obtain ⟨i, hi⟩ := Batchie.Lemmas.PolicyGlue.argminAllowed_some
+      (table := table) (allowed := el.map (fun p => p.id)) ⟨(p.id, sc), hsc, List.mem_map.2 ⟨p, hp, rfl⟩⟩
+    exact ⟨i, by simp [hi]⟩
+
+/-- witness of S8-C16: samples b, a, a, b on plates 0..3 (k = 2) -/
+def tieWitness : List Plate := [⟨0, [1], false⟩, ⟨1, [0], false⟩, ⟨2, [0], false⟩, ⟨3, [1], false⟩]
+
+/-- after plate 0 was picked only plate 3 (the other plate of sample b) is allowed -/
+theorem C16_tie_witness_allowed : selectNext 2 tieWitness [0] = .ok [⟨3, [1], false⟩] := by
+  rw [Batchie.Lemmas.PolicyGlue.selectNext_eq]
+  have e : batchFilter [0] = [0] := by decide
+  rw [e]
+  unfold eligibleOf
+  rw [candidates_of_sorted (by decide)]
+  rfl
+
+/-- **Regression (S8-C16, not a clause):** `best = scores[mask].min()` followed by a value lookup over the WHOLE table.  With the
+    SizeScorer table of the witness (every remaining plate has size 1) and plate 0 in the batch, the real argmin answers plate 3,
+    the only allowed one; the value lookup answers plate 1 -- not allowed, a plate of sample a while sample b is in progress: the
+    batch `[0, 1]` then has two incomplete samples. -/
+theorem C16_S8_value_lookup_counterexample :
+    selectPlate 2 tieWitness [0] [(1, 1), (2, 1), (3, 1)] = .ok (some 3) ∧
+    argminAllowed [(1, 1), (2, 1), (3, 1)] [3] = some 3 ∧
+    argminValueLookup [(1, 1), (2, 1), (3, 1)] [3] = some 1 ∧
+    (1 : Nat) ∉ [(3 : Nat)] ∧
+    cnt (batchPlates tieWitness [0, 1]) 0 = 1 ∧ cnt (batchPlates tieWitness [0, 1]) 1 = 1 := by
+  refine ⟨?_, by decide, by decide, by decide, by decide, by decide⟩
+  unfold selectPlate
+  rw [C16_tie_witness_allowed]
+  rfl
 
 /-- **Multi-sample plates are refused**: the filter raises `ValueError` iff some plate among the
     batch and the remaining plates does not contain exactly one sample. -/
